@@ -10,6 +10,8 @@ import NflowsModel.Lemmas.CubicWhole
 import NflowsModel.Lemmas.QuadWhole
 import NflowsModel.Lemmas.TailsWhole
 import NflowsModel.Lemmas.QuadInverseWhole
+import NflowsModel.Lemmas.CubicInverseWhole
+import NflowsModel.Lemmas.LinWhole
 /-!
 # C09 — spline transformers are increasing bijections of their box, identity in the tails
 
@@ -311,5 +313,24 @@ theorem quad_program_inverse_bijection (e : Float → ℝ) (c : QCfg) (uw uh : L
   rcases hv with hv | hv
   · exact ⟨QuadInverseWhole.inv_strictMonoOn hv, QuadInverseWhole.inv_bijOn hv⟩
   · exact ⟨QuadInverseWhole.inv_strictMonoOn_T hv, QuadInverseWhole.inv_bijOn_T hv⟩
+
+/-- **End to end, cubic inverse** (every bin exact): a strictly increasing bijection of `[bottom, top]` onto `[left, right]` -/
+theorem cubic_program_inverse_bijection (e : Float → ℝ) (c : CCfg) (uw uh : List ℝ) (udl udr : ℝ)
+    (hv : CubicWhole.CubicValid e c uw uh) (hc : CubicInverseWhole.InvConsts e c)
+    (hall : CubicInverseWhole.AllExact e c uw uh udl udr) :
+    StrictMonoOn (CubicInverseWhole.inv e c uw uh udl udr) (Set.Icc (e c.box.bottom) (e c.box.top)) ∧
+    Set.BijOn (CubicInverseWhole.inv e c uw uh udl udr) (Set.Icc (e c.box.bottom) (e c.box.top)) (Set.Icc (e c.box.left) (e c.box.right)) :=
+  ⟨CubicInverseWhole.inv_strictMonoOn hv hc hall, CubicInverseWhole.inv_bijOn hv hc hall⟩
+
+/-- **End to end, linear spline, both directions** (the forward bin index `min(⌊x'K⌋, K−1)` is computed with the new `XOps.floorInt`,
+    faithful at `Float`, `Float32` and ℝ): for EVERY non-empty parameter vector the forward program is a strictly increasing
+    bijection of `[left, right]` onto `[bottom, top]` pinning the corners, and the inverse program one of `[bottom, top]` onto
+    `[left, right]`. -/
+theorem linear_program_bijection (e : Float → ℝ) (box : Box) (eps : Float) (up : List ℝ) (hv : LinWhole.LinValid e box eps up) :
+    StrictMonoOn (LinWhole.val e box eps up) (Set.Icc (e box.left) (e box.right)) ∧
+    Set.BijOn (LinWhole.val e box eps up) (Set.Icc (e box.left) (e box.right)) (Set.Icc (e box.bottom) (e box.top)) ∧
+    LinWhole.val e box eps up (e box.left) = e box.bottom ∧ LinWhole.val e box eps up (e box.right) = e box.top ∧
+    Set.BijOn (LinWhole.inv e box eps up) (Set.Icc (e box.bottom) (e box.top)) (Set.Icc (e box.left) (e box.right)) :=
+  ⟨LinWhole.val_strictMonoOn hv, LinWhole.val_bijOn hv, (LinWhole.val_endpoints hv).1, (LinWhole.val_endpoints hv).2, LinWhole.inv_bijOn hv⟩
 
 end Properties.C09
